@@ -1083,6 +1083,9 @@ class Interp:
                     return default
                 if all(isinstance(v, (int, float)) and not isinstance(v, TInt) for v in vals):
                     return (max if _n == "max" else min)(vals)
+                if any(isinstance(v, TInt) for v in vals) and all(isinstance(v, (int, float)) for v in vals) and key is None:
+                    I.tainted(f"{_n}() over length-derived integers")          # aborts unless lengths are concrete by construction
+                    return TInt((max if _n == "max" else min)(int(v) if isinstance(v, TInt) else v for v in vals))
                 if any(isinstance(v, TInt) for v in vals):
                     raise AnalysisAbort(f"{_n}() over tainted lengths")
                 if len(vals) == 1:
